@@ -237,7 +237,9 @@ func addParameterMetaInfo(segs []*routeSegment) []*routeSegment {
 			segs[i].ComparePart = RemoveEscapeChar(comparePart)
 		} else {
 			comparePart = segs[i].Const
-			if len(comparePart) > 1 {
+			// the trailing slash is only optional at the end of the route or in front of an optional parameter,
+			// everywhere else it belongs to the constant the parameter search looks for
+			if len(comparePart) > 1 && (i == segLen-1 || segs[i+1].IsOptional) {
 				comparePart = utils.TrimRight(comparePart, slashDelimiterStr)
 			}
 		}
